@@ -42,7 +42,7 @@ CHECKS = {
         quick=NATIVE,
         thorough=NATIVE + [("fresh", 1.0, {"only": "fresh"})],
         rule="histories are drawn by a seeded generator of legal evolution steps (FieldAdded / FieldMadeOptional / FieldRemoved / FieldMadeTransient, length 1-5); every prefix becomes a compiled Rust type in four embeddings; all (w, r) pairs x generated values of version w are written by w and read by r; non-trivial = w != r, distinct by (reader type, bytes); every outcome class must be observed at least 10 times; plus four fixed scenarios in which an older reader skips the chunk of an added field that holds a derived record (with / without names in its header, sibling before / after)",
-        floors={"any": {"outcome:as_written": 10, "outcome:wrapped": 10, "outcome:unwrapped": 10, "outcome:none_is_error": 10,
+        floors={"any": {"position_limit:made_optional_in_chunk_127:as_documented": 1, "position_limit:made_optional_at_position_128:as_documented": 1, "skipped_chunk:nested_record_without_header_names_then_sibling:as_documented": 1, "outcome:as_written": 10, "outcome:wrapped": 10, "outcome:unwrapped": 10, "outcome:none_is_error": 10,
                         "outcome:default_taken": 10, "outcome:removed_reads_none": 10, "outcome:removed_is_error": 10,
                         "outcome:newer_data_skipped": 10, "outcome:dropped_field_ignored": 10, "histories": 30}},
         assumptions=["legal histories only: chunk-0 field order never changes, a field is removed / made transient only while it is the last one serialized in its chunk, names are never reused"],
@@ -73,7 +73,7 @@ CHECKS = {
         thorough=NATIVE + [("rel", 1.0, {"exhaustive3": "1"}), ("asan", 0.1), ("msan", 0.1), ("memcheck", 0.02)],
         custom="c05_depth_probe",
         rule="faults = hostile inputs: (a) all byte strings of length 0..2 per type, (b) valid encodings tampered at a field the reference decoder's annotated parse identifies (chunk size, count, length, tag, position byte, version, constructor index, string id), chunk surgery, splices, bit flips, overwrites with varint edge encodings, truncation, (c) random bytes, (d) primitive read sequences with counts {0, 1, remaining, remaining+1, usize::MAX, usize::MAX - pos + k}; (e) tampered encodings read by client types whose hand-written codec survives a failing nested decode (Tolerant<T> fields in evolved records and constructors, same / older / newer version of the field): the library regains control after its own error; every case counts as non-trivial (any outcome other than Ok/Err within budget is a violation); distinct by (type, input)",
-        floors={"any": {"types_with_exhaustive_short_inputs": 1000, "outcome:Err": 100000, "outcome:Ok": 10000, "hostile_op_sequences": 10000, "tolerant:nested_failure_survived": 1000}},
+        floors={"any": {"slice_input_cursor_behind_the_data": 1000, "types_with_exhaustive_short_inputs": 1000, "outcome:Err": 100000, "outcome:Ok": 10000, "hostile_op_sequences": 10000, "tolerant:nested_failure_survived": 1000}},
         assumptions=["each non-zero-width element consumes at least one input byte, so len + 65536 sequence items bounds every legitimate decode"],
     ),
     "C06": dict(
@@ -151,7 +151,7 @@ CHECKS = {
         level="exploration",
         quick=NATIVE, thorough=NATIVE + [("msan", 0.03)],
         rule="a case = (element type, source container, target container, element list); non-trivial = source and target differ; distinct by (element type, source, target, bytes)",
-        floors={"any": {"cells_ok": 20000, "pair:reference_unknown_length->Vec": 100, "pair:unsized_iterator->array": 20, "pair:HashSet->Vec": 100, "pair:Vec->HashSet": 100, "pair:pair_list->HashMap": 100, "pair:[u8;N]->Bytes": 50}},
+        floors={"any": {"pair:Vec->LinkedList": 1000, "cells_ok": 20000, "pair:reference_unknown_length->Vec": 100, "pair:unsized_iterator->array": 20, "pair:HashSet->Vec": 100, "pair:Vec->HashSet": 100, "pair:pair_list->HashMap": 100, "pair:[u8;N]->Bytes": 50}},
     ),
     "C13": dict(
         claim="Held on N observed executions: for every generated enum the leading bytes are version 0 + the variant's position in index order (declaration order, or name order under sorted_constructors); indices the definition does not know give InvalidConstructorId, indices of transient constructors give DeserializingTransientConstructor with the right names; for every generated family (base enum + extensions whose new variants come after the old ones in index order, incl. sorted ones declared at random positions) old data keeps its meaning under the extension and new constructors are rejected by the old definition. Two enums with 140 constructors (declaration order and sorted) exercise two-byte constructor indices.",
@@ -187,7 +187,7 @@ CHECKS = {
         level="fault_enumeration",
         quick=NATIVE, thorough=NATIVE + [("asan", 0.3)],
         rule="faults: truncation at every offset, bit flip at every bit (small frames), header rewrites to {0, -1, +1, x2, 2^31, 2^32-1}; non-trivial = all; distinct by frame bytes",
-        floors={"any": {"frames_round_trip": 300, "truncations_rejected": 5000, "corrupted_ok:bitflip": 1000, "corrupted_err:bitflip": 1000, "frames_identical_through_contexts_and_size_exact": 300}},
+        floors={"any": {"block_beyond_the_length_field_rejected": 1, "frames_round_trip": 300, "truncations_rejected": 5000, "corrupted_ok:bitflip": 1000, "corrupted_err:bitflip": 1000, "frames_identical_through_contexts_and_size_exact": 300}},
     ),
     "C17": dict(
         claim="Held on N observed executions: all 1 112 064 Unicode scalar values are encoded (BMP: 2 bytes big-endian; others: UnsupportedCharacter with that character); zero-sized sequences, slices and exact-size iterators of length i32::MAX+1 .. usize::MAX give LengthTooLarge (4 GiB / 2 GiB byte and string buffers in the thorough tier); a declaration referencing an unknown field gives UnknownFieldReferenceInEvolutionStep through every sink; a declaration with the maximum of 255 metadata steps round-trips; value-domain extremes of the time and big-number types; and generated values of every subject type (astral characters allowed) give Ok or exactly the documented error predicted by the reference encoder. A panic or an undocumented variant is a violation.",
